@@ -15,7 +15,8 @@ FrameClause(v) == IF v.p # PackFrame(H(v.f), v.msg) \/ v.umsg # v.msg \/ H(v.u) 
 ShortClause(v) == IF v.accepted THEN "C11.ShortRefused" ELSE "ok"
 \* kind "write": frames observed on air for one write() of msg
 WriteClause(v) == LET h == Hdr(v.from, v.to, v.id, v.type, v.res0)  r == Tmrh20Reassemble(v.air) IN
-                  IF \E k \in 1..Len(v.air) : Len(v.air[k]) > 32 THEN "C11.FrameSize"
+                  IF v.exc # "none" THEN "C11.StrType"          \* write() raised (a one-character string type assigned to the attribute)
+                  ELSE IF \E k \in 1..Len(v.air) : Len(v.air[k]) > 32 THEN "C11.FrameSize"
                   ELSE IF v.air # Fragments(h, v.msg) THEN "C11.Fragments"
                   ELSE IF ~(r.ok /\ r.msg = v.msg /\ r.type = v.type /\ r.from = v.from /\ r.id = v.id) THEN "C11.Tmrh20"
                   ELSE IF v.type_after # v.type_before THEN "C11.TypeRestored" ELSE "ok"
